@@ -12,7 +12,7 @@ CASE_IMPORTS = "From GV Require Import Prelude.Base Model.Linked.\nOpen Scope Z_
 ALLOWED_AXIOMS: list = []
 REFUTED = ["C20_copy_isolated_refuted (a TEM copy shares the nested Waveform dict with its source: copy.waveform = ... changes the source pair's live metadata)"]
 PARTIAL = ["C20_copy_isolated_partial (edits of the copied pair leave the source pair's metadata unchanged when no nested dict is shared, i.e. for every non-TEM family or when the edit is not a waveform edit)",
-           "large-loop and direct-current copies link the copies only when both sides carry the id property (Transmitter ID / A-B Cell ID): C20_copy_links_copies has that hypothesis"]
+           "large-loop copies link the copies only when both sides carry the Tx ID property (hypothesis of C20_copy_links_copies_large); direct-current pairs: only the link (C20_dc_*), neither shared-parameter visibility nor copies are proved"]
 TRUSTED = [
     "Coq 8.16.1 kernel + vm_compute (correspondence evaluation); no axioms (Print Assumptions: closed)",
     "hand-written model coq/theories/Model/Linked.v of BaseEMSurvey.metadata getter/setter, edit_em_metadata, partner getters/setters, TEM waveform setter, copy + copy_complement (moving/large loop, tipper), BaseElectrode metadata/link/copy, re-open; tied to the code by running both on the same histories",
@@ -30,20 +30,29 @@ RULE = (
     "workspace), edits of copies and copies of copies; non-trivial = the history links a pair and performs a copy or a re-open after an edit"
 )
 LEVEL_TEXT = (
-    "Proved: linking from either side puts both identifiers on both entities and stores them (link_symmetric); an invariant (both entities "
-    "read the same metadata, which is what is stored, and it names both) is preserved by every link/edit/waveform/re-open operation from "
-    "either side, hence by all sequences (edit_shared, induction over the history); after re-open each side resolves its partner "
-    "(reopen_resolves); the copy of either side yields a new pair satisfying the invariant whose members are distinct from the originals in "
-    "the same workspace (copy_links_copies), and so does a copy of a copy (copy_of_copy). Refuted: isolation of a TEM copy from its source "
-    "(shared Waveform dict). Tie: the model is evaluated in Coq on every generated history and compared with the implementation step by step "
-    "(live metadata, stored metadata, partner getters, dict identity)."
+    "Proved, ELECTROMAGNETIC pairs only (receivers/transmitters, tipper receivers/base stations; the invariant `inv` requires a "
+    "non-direct-current family): linking from either side puts both identifiers on both entities and stores them "
+    "(C20_link_symmetric); `inv` (both entities read the same metadata, which is what is stored, and it names both) is preserved by "
+    "every link / scalar edit / waveform / airborne-parameter / re-open operation from either side, hence by all sequences "
+    "(C20_edit_shared, induction); after re-open each side resolves its partner (C20_reopen_resolves); the copy of either side of a "
+    "NON-large-loop pair yields a new pair satisfying `inv`, distinct from the originals (C20_copy_links_copies, C20_copy_of_copy, "
+    "C20_copy_then_edit_isolated); for LARGE-LOOP pairs the same only when both sides carry the Tx ID property "
+    "(C20_copy_links_copies_large; without it no partner is copied - open finding copy-without-id-property-drops-partner). "
+    "DIRECT-CURRENT pairs, weaker invariant `dinv`: the link is recorded on both sides (C20_dc_link_symmetric), persists over all "
+    "lists of free-metadata edits, CRS assignments, re-links and re-opens (C20_dc_link_persists) and resolves after re-open "
+    "(C20_dc_reopen_resolves); that a shared-parameter edit is visible on BOTH electrodes is NOT proved and false of the code (open "
+    "finding dc-shared-dict-partner-not-stored); electrode COPIES have no theorem (correspondence + oracle only). "
+    "Refuted: isolation of a TEM copy from its source (shared Waveform dict). Not in the model (oracle only): which vertices a "
+    "masked large-loop / electrode copy keeps of the partner (Tx-ID / A-B intersection masks); the model copies the partner whole. "
+    "Tie: the model is evaluated in Coq on every generated history and compared with the implementation step by step (live metadata, "
+    "stored metadata, partner getters, dict identity)."
 )
 TECHNIQUE = "Coq state machine with a dict heap and a stored-JSON table; invariant proof by induction over histories; vm_compute correspondence"
 DRIVE_TIMEOUT = 900
 
 PAIRS = {
-    "AirborneTEM": ("AirborneTEMReceivers", "AirborneTEMTransmitters", "FTEM"),
-    "AirborneFEM": ("AirborneFEMReceivers", "AirborneFEMTransmitters", "FEM"),
+    "AirborneTEM": ("AirborneTEMReceivers", "AirborneTEMTransmitters", "FAirTEM"),
+    "AirborneFEM": ("AirborneFEMReceivers", "AirborneFEMTransmitters", "FAirEM"),
     "MovingLoopGroundTEM": ("MovingLoopGroundTEMReceivers", "MovingLoopGroundTEMTransmitters", "FTEM"),
     "MovingLoopGroundFEM": ("MovingLoopGroundFEMReceivers", "MovingLoopGroundFEMTransmitters", "FEM"),
     "LargeLoopGroundTEM": ("LargeLoopGroundTEMReceivers", "LargeLoopGroundTEMTransmitters", "FLargeTEM"),
@@ -206,7 +215,7 @@ def rand_edit(rng, pair, who):
         return {"op": "param", "a": who, "field": rng.choice(sorted(PARAMS)[:3] if rng.chance(70) else sorted(PARAMS)),
                 "kind": rng.weighted([("float", 40), ("uuid", 45), ("none", 15)]), "val": rng.below(40)}
     if c >= 100:
-        if c < 110 and fam in ("FTEM", "FLargeTEM"):
+        if c < 110 and fam in ("FTEM", "FLargeTEM", "FAirTEM"):
             return {"op": "timing", "a": who, "val": rng.range(1, 9)}
         if c < 118:
             return {"op": "nest", "a": who, "val": rng.below(50)}
@@ -221,7 +230,7 @@ def rand_edit(rng, pair, who):
         return {"op": "edit", "a": who, "key": "Channels", "val": [float(rng.range(1, 9)) for _ in range(rng.range(1, 3))]}
     if c < 70:
         return {"op": "unit", "a": who, "idx": rng.below(4)}
-    if c < 85 and fam in ("FTEM", "FLargeTEM"):
+    if c < 85 and fam in ("FTEM", "FLargeTEM", "FAirTEM"):
         return {"op": "wave", "a": who, "seed": rng.below(100)}
     if pair.startswith(("Airborne", "MovingLoop")):
         return {"op": "edit", "a": who, "key": "Loop radius", "val": float(rng.range(1, 20))}
@@ -262,7 +271,7 @@ def generate(rng, tier):
             if pair != "DC":
                 setters = [{"op": "edit", "key": "Channels", "val": [2.0, 4.0]}, {"op": "unit", "idx": 2}, {"op": "edit", "key": "Input type", "val": None},
                            {"op": "nest", "val": 7}]
-                if fam in ("FTEM", "FLargeTEM"):
+                if fam in ("FTEM", "FLargeTEM", "FAirTEM"):
                     setters += [{"op": "wave", "seed": 11}, {"op": "timing", "val": 5}, {"op": "timing", "val": 6}, {"op": "wave", "seed": 12}]
                 if pair.startswith(("Airborne", "MovingLoop")):
                     setters.append({"op": "edit", "key": "Loop radius", "val": 3.0})
@@ -303,7 +312,12 @@ def generate(rng, tier):
                         hp.append({"op": "param", "a": (j + t + 1) % 2, "field": field, "kind": kind, "val": 5 * j + t + 2, "quiet": t + 1 < len(kinds) and (j % 2 == 0)})
                     hp.append({"op": "reopen"})
                 cases.append({"hist": hp})
-            if fam in ("FTEM", "FLargeTEM"):
+            if fam in ("FTEM", "FLargeTEM", "FAirTEM"):
+                # a Waveform block WITHOUT a timing mark (written through edit_em_metadata): the waveform setter must start a new block
+                hw = base_history(pair, direction, n, rng)
+                cases.append({"hist": hw + [{"op": "nest", "a": direction, "val": 5, "key": "Waveform"}, {"op": "wave", "a": 1 - direction, "seed": 21}, {"op": "reopen"},
+                                            {"op": "timing", "a": direction, "val": 4}, {"op": "nest", "a": 1 - direction, "val": 6, "key": "Waveform"},
+                                            {"op": "wave", "a": direction, "seed": 22, "quiet": True}, {"op": "reopen"}]})
                 cases.append({"hist": h + [{"op": "wave", "a": 0, "seed": 3}, {"op": "copy", "a": 0, "tws": 0, "mask": None}, {"op": "wave", "a": 2, "seed": 7}, {"op": "reopen"}]})
     # tipper with a single base station, unequal vertex counts, unlinked copies, pairs without ids
     cases.append({"hist": [{"op": "create", "pair": "Tipper", "role": "A", "ws": 0, "ids": False, "n": 5}, {"op": "create", "pair": "Tipper", "role": "B", "ws": 0, "ids": False, "n": 1},
@@ -582,7 +596,7 @@ def drive_one(case, work):
                     ents[op["a"]]["obj"].timing_mark = float(op["val"])
                     defaults_log.append(None)
                 elif kind == "nest":
-                    ents[op["a"]]["obj"].edit_em_metadata({"Nested": {"a": op["val"]}})
+                    ents[op["a"]]["obj"].edit_em_metadata({op.get("key", "Nested"): {"a": op["val"]}})
                     defaults_log.append(None)
                 elif kind == "crs":
                     ents[op["a"]]["obj"].coordinate_reference_system = {"Code": "EPSG:%d" % op["code"], "Name": "n%d" % op["code"]}
@@ -712,7 +726,7 @@ def _op_term(op, obs, idx, case=None):
         pv = "PClear" if op["kind"] == "none" else "(%s %s)" % ("PConst" if op["kind"] == "float" else "PProp", _z(_param_token(op)))
         return "(OParam %s %s %s %s)" % (cnat(op["a"]), cnat(keynum(fld + " value")), cnat(keynum(fld + " property")), pv)
     if k == "nest":
-        return "(ONest %s %s %s %s)" % (cnat(op["a"]), cnat(keynum("Nested")), cnat(keynum("a")), _z(tokz(op["val"])))
+        return "(ONest %s %s %s %s)" % (cnat(op["a"]), cnat(keynum(op.get("key", "Nested"))), cnat(keynum("a")), _z(tokz(op["val"])))
     if k == "crs":
         return "(OCrs %s %s %s)" % (cnat(op["a"]), _z(tokz({"Code": "EPSG:%d" % op["code"], "Name": "n%d" % op["code"]})), _z(obs["crs_default"]))
     if k == "edit":
@@ -990,7 +1004,8 @@ def oracle(case, obs):
                 elif k == "nest":
                     want = ["D", [[keynum("a"), tokz(op["val"])]]]
                     for who in (a, b):
-                        if (not quiet and _get(views[who]["live"], keynum("Nested")) != want) or _get(views[who]["stored"], keynum("Nested")) != want:
+                        nk = keynum(op.get("key", "Nested"))
+                        if (not quiet and _get(views[who]["live"], nk) != want) or _get(views[who]["stored"], nk) != want:
                             fails.append({"key": "edit-not-visible-on-both", "what": f"step {i}: nested entry not visible/stored on entity {who}"})
                 elif k == "param":
                     fld = PARAMS[op["field"]]
